@@ -3,12 +3,17 @@ package main
 // Execution modes (lib, lib+decorators) and the monitoring decorators (DESIGN.md 2.1, 2.3).
 
 import (
+	"bytes"
 	"encoding/json"
 	"fmt"
+	"net/http/httptest"
 	"reflect"
 	"regexp"
 	"sort"
+	"sync"
 	"unsafe"
+
+	"github.com/gin-gonic/gin"
 
 	"github.com/Azbesciak/RealDecisionMaker/lib/logic/limited-rationality/aspect-elimination"
 	"github.com/Azbesciak/RealDecisionMaker/lib/logic/limited-rationality/majority"
@@ -618,4 +623,24 @@ func setOf(xs []string) map[string]bool {
 		m[x] = true
 	}
 	return m
+}
+
+// ---------------------------------------------------------------------------------------------
+// http-inproc mode: the real decideHandler / functionsHandler of main.go behind a gin engine, no network
+
+var inprocOnce sync.Once
+var inprocEngine *gin.Engine
+
+func httpInproc(method, path string, body []byte) (int, []byte) {
+	inprocOnce.Do(func() {
+		inprocEngine = gin.New()
+		api := inprocEngine.Group("/api")
+		api.POST("/decide", decideHandler)
+		api.GET("/preferenceFunctions", functionsHandler)
+	})
+	req := httptest.NewRequest(method, path, bytes.NewReader(body))
+	req.Header.Set("Content-Type", "application/json")
+	w := httptest.NewRecorder()
+	inprocEngine.ServeHTTP(w, req)
+	return w.Code, bytes.TrimSpace(w.Body.Bytes())
 }
